@@ -85,6 +85,10 @@ def run(chk):
                          dist=lambda sc, o: {'outcome': (o.get('ops') or [{}])[0].get('outcome')})
     proto_correspondence(chk, 'protocol traces vs Mpire.Proto.step (failure)', fs, fobs)
     st = stale_scenarios(rng, 120 if chk.tier == 'quick' else 2000)
+    # minimised past failures run first
+    import glob as _glob, json as _json, os as _os
+    from harness.common import ROOT as _ROOT
+    st = [_json.load(open(f))['case']['scenario'] for f in sorted(_glob.glob(_os.path.join(_ROOT, 'corpus', 'C02', '*.json')))] + st
     run_scenarios(chk, 'a call after one that was cut short, same function: nothing of the earlier call is executed during it', st, {'C02', 'C01'},
                   nontrivial=lambda sc, o: True, dist=lambda sc, o: {'first_call': 'left open' if sc.get('overlap') else 'closed early' if sc['ops'][0].get('abandon') else 'failed with a long sibling',
                                                                      'start': sc['pool']['start_method']})
